@@ -2103,6 +2103,44 @@ func (m *streeModel) ruleLinkEdits(c *Ctx) {
 				}
 			}
 		})
+		// a link (reached through a field or through a pointer-to-link) that receives X.f, read after X.f was set
+		// to nil in the same block: what is stored is nil, whatever hung under X.f is dropped
+		allInstrs(fn, func(in ssa.Instruction) {
+			st, ok := in.(*ssa.Store)
+			if !ok {
+				return
+			}
+			ld, ok := st.Val.(*ssa.UnOp)
+			if !ok || ld.Op != token.MUL || ld.Block() != st.Block() {
+				return
+			}
+			src, ok := ld.X.(*ssa.FieldAddr)
+			if !ok || !isNamedOrigin(src.X.Type(), m.nodeT) {
+				return
+			}
+			_, f := fieldVarOf(src)
+			if !isLink(f) {
+				return
+			}
+			cleared := false
+			for _, in2 := range st.Block().Instrs {
+				if in2 == ssa.Instruction(ld) {
+					break
+				}
+				if s2, ok := in2.(*ssa.Store); ok {
+					if fa2, ok := s2.Addr.(*ssa.FieldAddr); ok && isNamedOrigin(fa2.X.Type(), m.nodeT) {
+						if _, f2 := fieldVarOf(fa2); sameField(f2, f) && (fa2.X == src.X || sym(fa2.X) == sym(src.X)) {
+							cleared = isNilConst(s2.Val)
+						}
+					}
+				}
+			}
+			if cleared {
+				nStale++
+				c.sawFn(name)
+				c.bad("R-LINK-STALE", fmt.Sprintf("%s:%s.%s read after it was cleared #%d", name, ksym(src.X), f.Name(), nStale), st.Pos(), fmt.Sprintf("%s.%s is set to nil and only then read and stored into a link: the link receives nil, and the subtree that hung under %s.%s is dropped from the tree (its keys disappear while the count still includes them)", ksym(src.X), f.Name(), ksym(src.X), f.Name()))
+			}
+		})
 		allInstrs(fn, func(in ssa.Instruction) {
 			st, ok := in.(*ssa.Store)
 			if !ok {
